@@ -63,9 +63,19 @@ def tourNext (as : List Nat) : List Nat :=
 
 /-- `_get_reward`: `-cost_matrix[b, actions, roll(actions, -1)].sum(-1)` -/
 def reward (i : Inst) (as : List Nat) : Int :=
-  - (List.zipWith (fun src tgt => i.M src tgt) as (tourNext as)).sum
+  if Params.atspGatherSrcFirst then
+    - (List.zipWith (fun src tgt => i.M src tgt) as (tourNext as)).sum       -- `M[b, nodes_src, nodes_tgt]`
+  else
+    - (List.zipWith (fun src tgt => i.M tgt src) as (tourNext as)).sum       -- (indices swapped)
 
 /-- `check_solution_validity` (same idiom as TSP) -/
-def check (_ : Inst) (as : List Nat) : Bool := Tspfam.permTest Params.atspCheckCmp as.length as
+def checkWith (fromInst : Bool) (i : Inst) (as : List Nat) : Bool :=
+  if fromInst then
+    -- repaired clause: `arange(num_loc)` from the instance; a width mismatch makes the comparison raise
+    decide (as.length = i.n) && Tspfam.permTest Params.atspCheckCmp i.n as
+  else Tspfam.permTest Params.atspCheckCmp as.length as
+
+/-- the checker as written: the width source is an extracted token (`false` = width of the action tensor) -/
+def check (i : Inst) (as : List Nat) : Bool := checkWith Params.atspCheckWidthFromInst i as
 
 end Rl4co.Atsp
